@@ -120,7 +120,7 @@ pub fn run(seed: u64, count: usize) -> Vec<String> {
         let stores = rng.range(0, 4) as u64;
         let shared = Arc::new(ArcSwap::from_pointee(cfg(k0)));
         let sh = &shared;
-        let pick = rng.range(0, 20);
+        let pick = rng.range(0, 21);
         // lines are printed as they are produced, and the attempt is announced first: a guard
         // that reads through a dangling pointer may take the process down
         for l in out.drain(..) {
@@ -192,6 +192,40 @@ pub fn run(seed: u64, count: usize) -> Vec<String> {
                 drop(g);
                 let after = Arc::strong_count(&old);
                 out.push(format!("shape=keepalive chain=snd k0={} stores=1 seen={},{} fresh={} alive_while_guarded={} released_after={}", k0, v, v, *Access::load(&m), (held >= 2) as u8, (after == 1) as u8));
+            }
+            20 => {
+                // a projection guard outlives the thread that loaded it, a newcomer takes over that
+                // thread's bookkeeping and uses it, then the value is replaced: the guard still
+                // keeps its snapshot alive, and releases it when dropped
+                let old = sh.load_full();
+                drop(ArcSwap::load(&**sh)); // this thread owns a node of its own before the others come and go
+                let g = {
+                    let m = Map::new(Arc::clone(sh), pb as fn(&Cfg) -> &u64);
+                    std::thread::spawn(move || Access::load(&m)).join().unwrap()
+                };
+                {
+                    let sh2 = Arc::clone(sh);
+                    std::thread::spawn(move || {
+                        let a = ArcSwap::load(&*sh2);
+                        let b = ArcSwap::load_full(&*sh2);
+                        drop(a);
+                        drop(b);
+                    })
+                    .join()
+                    .unwrap();
+                }
+                sh.store(Arc::new(cfg(k0 + 1)));
+                let held = Arc::strong_count(&old); // us + the guard's snapshot
+                // do not look through a guard whose snapshot is gone
+                let v = if held >= 2 { *g } else { u64::MAX };
+                if held >= 2 {
+                    drop(g);
+                } else {
+                    std::mem::forget(g);
+                }
+                let after = Arc::strong_count(&old);
+                let m = Map::new(Arc::clone(sh), pb as fn(&Cfg) -> &u64);
+                out.push(format!("shape=keepalive-outlived chain=snd k0={} stores=1 seen={},{} fresh={} alive_while_guarded={} released_after={}", k0, v, v, *Access::load(&m), (held >= 2) as u8, (after == 1) as u8));
             }
             _ => observe(&mut out, "ref-arc", "", sh, &Arc::clone(sh), ShowCfg, k0, stores),
         }
